@@ -876,6 +876,8 @@ Section Mixed.
     set (name := join_name (oi_name (os_id s)) (ph_name ph)).
     destruct (find_phase (sw_phases sw) (phase_kind s) (oi_ns (os_id s)) name) as [cur|] eqn:Ef.
     - destruct (find_phase_key _ _ _ _ _ Ef) as (Hk & Hns & Hn).
+      destruct (negb (controlled_by_uid (op_owners cur) (oi_uid (os_id s)))).
+      { intros H. injection H as <- <- <- <-. repeat split; auto. constructor; [reflexivity|constructor]. }
       destruct (Bool.eqb (op_paused cur) _) eqn:Ep.
       + intros H. injection H as <- <- <- <-. repeat split; auto.
         * constructor; [reflexivity|constructor].
@@ -893,6 +895,45 @@ Section Mixed.
       repeat split; auto.
       + constructor; [reflexivity|]. constructor; [reflexivity|constructor].
       + intros kind ns nm Hne. apply find_put_phase_other. unfold pkey_eq. cbn. exact Hne.
+  Qed.
+
+  (** Only a phase object controlled by the ObjectSet is recorded, patched or relayed; anything else is an error
+      that leaves the world and the recorded remote phases as they are. *)
+  Lemma add_remote_in refs r x : In x (add_remote refs r) -> x = r \/ In x refs.
+  Proof.
+    induction refs as [|y l IH]; cbn; [intros [<-|[]]; now left|].
+    destruct (fst y =? fst r); cbn.
+    - intros [<-|H]; [now left|right; now right].
+    - intros [<-|H]; [right; now left|]. destruct (IH H) as [->|H']; [now left|right; now right].
+  Qed.
+
+  Lemma remote_reconcile_own sw s ph rem sw1 e1 rem1 r :
+    remote_reconcile sw s ph rem = (sw1, e1, rem1, r) ->
+    match r with
+    | RRErr => rem1 = rem /\ Forall (fun e => match e with SPhase (PPause _ _ _) => False | _ => True end) e1
+    | RROk active failed =>
+        exists cur, phase_obj_of sw1 s ph = Some cur /\ relay cur = RROk active failed /\
+          (In (SPhase (PGet (pobj_name s ph) (Some cur))) e1 \/ exists p, In (SPhase (PPause (pobj_name s ph) p (Some cur))) e1) /\
+          controlled_by_uid (op_owners cur) (oi_uid (os_id s)) = true /\
+          rem1 = add_remote rem (pobj_name s ph, oi_uid (op_id cur))
+    end.
+  Proof.
+    unfold remote_reconcile, phase_obj_of, pobj_name. cbn [desired_phase op_id oi_kind oi_ns oi_name].
+    set (name := join_name (oi_name (os_id s)) (ph_name ph)).
+    destruct (find_phase (sw_phases sw) (phase_kind s) (oi_ns (os_id s)) name) as [cur|] eqn:Ef.
+    - destruct (find_phase_key _ _ _ _ _ Ef) as (Hk & Hns & Hn).
+      destruct (controlled_by_uid (op_owners cur) (oi_uid (os_id s))) eqn:Ec; cbn [negb].
+      2:{ intros H. injection H as <- <- <- <-. split; [reflexivity|]. constructor; [exact I|constructor]. }
+      destruct (Bool.eqb (op_paused cur) _) eqn:Ep.
+      + intros H. injection H as <- <- <- <-.
+        destruct (relay cur) as [|active failed] eqn:Er; [exfalso; eapply relay_not_err; eauto|].
+        exists cur. split; [exact Ef|]. split; [exact Er|]. split; [left; now left|]. auto.
+      + intros H. injection H as <- <- <- <-. cbn [sw_phases with_phases].
+        set (cur' := phase_with cur _ _ _ _ _ _).
+        destruct (relay cur') as [|active failed] eqn:Er; [exfalso; eapply relay_not_err; eauto|].
+        exists cur'. split; [rewrite <- Hk, <- Hns, <- Hn; apply (find_put_phase_same (sw_phases sw) cur')|].
+        split; [exact Er|]. split; [right; eexists; right; now left|]. split; [exact Ec|reflexivity].
+    - intros H. injection H as <- <- <- <-. split; [reflexivity|]. constructor; [exact I|]. constructor; [exact I|constructor].
   Qed.
 
   Lemma rpm_cons sw s ow prev ph rest acc rem :
@@ -1219,17 +1260,17 @@ Section Mixed.
     reconcile_phases_m force sw s ow prev phs acc rem = (sw', evs, rem', MOk ctrlof None) ->
     forall q, In q phs -> ph_class q = true ->
       exists cur, (In (SPhase (PGet (pobj_name s q) (Some cur))) evs \/ exists p, In (SPhase (PPause (pobj_name s q) p (Some cur))) evs) /\
-                  avail_current cur.
+                  avail_current cur /\ controlled_by_uid (op_owners cur) (oi_uid (os_id s)) = true.
   Proof.
     induction phs as [|ph rest IH]; intros sw acc rem sw' evs rem' ctrlof H q Hq Hcq; [contradiction|].
     rewrite rpm_cons in H. destruct (ph_class ph) eqn:Ecl.
     - destruct (remote_reconcile sw s ph rem) as [[[sw1 e1] rem1] r1] eqn:E1.
-      destruct (remote_reconcile_inv _ _ _ _ _ _ _ _ E1) as (_ & _ & _ & _ & _ & Hres).
+      pose proof (remote_reconcile_own _ _ _ _ _ _ _ _ E1) as Hres.
       destruct r1 as [|active failed]; [discriminate|]. destruct failed; [discriminate|].
       destruct (reconcile_phases_m force sw1 s ow prev rest (acc ++ active) rem1) as [[[sw2 e2] rem2] r2] eqn:E2.
       injection H as <- <- _ ->.
       destruct Hq as [<-|Hq].
-      + destruct Hres as (cur & _ & Hrel & Hread). exists cur. split; [|now destruct (relay_ok _ _ Hrel)].
+      + destruct Hres as (cur & _ & Hrel & Hread & Hown & _). exists cur. split; [|split; [now destruct (relay_ok _ _ Hrel)|exact Hown]].
         destruct Hread as [Hr|(p & Hr)]; [left|right; exists p]; apply in_or_app; now left.
       + destruct (IH _ _ _ _ _ _ _ E2 q Hq Hcq) as (cur & Hread & Ha). exists cur. split; [|exact Ha].
         destruct Hread as [Hr|(p & Hr)]; [left|right; exists p]; apply in_or_app; now right.
@@ -1318,8 +1359,11 @@ Section Mixed.
   Definition phase_read (evs : list sev) (n : N) (cur : osphase) : Prop :=
     In (SPhase (PGet n (Some cur))) evs \/ exists p, In (SPhase (PPause n p (Some cur))) evs.
 
+  Definition own_phase_read (s : oset) (evs : list sev) (q : phase) (cur : osphase) : Prop :=
+    phase_read evs (pobj_name s q) cur /\ controlled_by_uid (op_owners cur) (oi_uid (os_id s)) = true.
+
   Definition reported_by_phase (s : oset) (phs : list phase) (evs : list sev) (k : okey) : Prop :=
-    exists q cur, In q phs /\ ph_class q = true /\ phase_read evs (pobj_name s q) cur /\ In k (op_ctrlof cur).
+    exists q cur, In q phs /\ ph_class q = true /\ own_phase_read s evs q cur /\ In k (op_ctrlof cur).
 
   Lemma phase_read_app_l e1 e2 n cur : phase_read e1 n cur -> phase_read (e1 ++ e2) n cur.
   Proof. intros [H|(p & H)]; [left|right; exists p]; apply in_or_app; now left. Qed.
@@ -1337,12 +1381,12 @@ Section Mixed.
     - rewrite rpm_cons in H. destruct (ph_class ph) eqn:Ecl.
       + rewrite (local_keys_cons_remote _ _ _ Ecl) in *.
         destruct (remote_reconcile sw s ph rem) as [[[sw1 e1] rem1] r1] eqn:E1.
-        destruct (remote_reconcile_inv _ _ _ _ _ _ _ _ E1) as (_ & _ & _ & _ & _ & Hres).
+        pose proof (remote_reconcile_own _ _ _ _ _ _ _ _ E1) as Hres.
         destruct r1 as [|active failed]; [discriminate|].
-        destruct Hres as (cur & Hcur & Hrel & Hread). pose proof (relay_active _ _ _ Hrel) as ->.
+        destruct Hres as (cur & Hcur & Hrel & Hread & Hown & _). pose proof (relay_active _ _ _ Hrel) as ->.
         assert (Hact : forall evsf, phase_read evsf (pobj_name s ph) cur ->
                   Forall (fun k => (In k (local_keys ow rest) /\ seen_controlled (sw_w sw') ow k) \/ reported_by_phase s (ph :: rest) evsf k) (op_ctrlof cur)).
-        { intros evsf Hf. apply Forall_forall. intros k Hk. right. exists ph, cur. split; [now left|]. auto. }
+        { intros evsf Hf. apply Forall_forall. intros k Hk. right. exists ph, cur. split; [now left|]. split; [exact Ecl|]. split; [split; assumption|exact Hk]. }
         destruct failed.
         * injection H as <- <- _ <- _. exists (op_ctrlof cur). split; [reflexivity|]. now apply Hact.
         * destruct (reconcile_phases_m force sw1 s ow prev rest (acc ++ op_ctrlof cur) rem1) as [[[sw2 e2] rem2] r2] eqn:E2.
@@ -1350,8 +1394,8 @@ Section Mixed.
           destruct (IH _ _ _ _ _ _ _ _ E2 Hnd) as (new & -> & Hnew).
           exists (op_ctrlof cur ++ new). split; [now rewrite app_assoc|]. apply Forall_app. split.
           -- apply Hact. now apply phase_read_app_l.
-          -- eapply Forall_impl; [|exact Hnew]. intros k [Hl|(q & cu & Hq & Hc & Hr & Hk)]; [now left|right].
-             exists q, cu. split; [now right|]. split; [exact Hc|]. split; [now apply phase_read_app_r|exact Hk].
+          -- eapply Forall_impl; [|exact Hnew]. intros k [Hl|(q & cu & Hq & Hc & [Hr Ho] & Hk)]; [now left|right].
+             exists q, cu. split; [now right|]. split; [exact Hc|]. split; [split; [now apply phase_read_app_r|exact Ho]|exact Hk].
       + rewrite (local_keys_cons_local _ _ _ Ecl) in *.
         pose proof (NoDup_app_r _ _ Hnd) as Hnd_rest. pose proof (NoDup_app_l _ _ Hnd) as Hnd0.
         destruct (reconcile_phase c idw (sw_w sw) ow prev false (ph_objects ph)) as [[w1 e1] r1] eqn:E1.
@@ -1373,8 +1417,8 @@ Section Mixed.
           exists (mine ++ new). split; [now rewrite app_assoc|]. apply Forall_app. split.
           -- apply Hmine. intros k Hk. destruct (rpm_inv _ _ _ _ _ _ _ _ _ _ _ E2) as (_ & _ & _ & _ & Hfr & _).
              rewrite Hfr; [reflexivity|]. eapply NoDup_app_disj; eauto.
-          -- eapply Forall_impl; [|exact Hnew]. intros k [[Hin Hs]|(q & cu & Hq & Hc & Hr & Hk)]; [left; split; [apply in_or_app; now right|assumption]|right].
-             exists q, cu. split; [now right|]. split; [exact Hc|]. split; [now apply phase_read_app_r|exact Hk].
+          -- eapply Forall_impl; [|exact Hnew]. intros k [[Hin Hs]|(q & cu & Hq & Hc & [Hr Ho] & Hk)]; [left; split; [apply in_or_app; now right|assumption]|right].
+             exists q, cu. split; [now right|]. split; [exact Hc|]. split; [split; [now apply phase_read_app_r|exact Ho]|exact Hk].
         * injection H as <- <- _ <- _. exists mine. split; [reflexivity|]. apply Hmine. reflexivity.
   Qed.
 
@@ -1413,6 +1457,47 @@ Section Mixed.
       assert (lookup k (w_store (sw_w sw2)) = lookup k (w_store w1)) as Hfr'.
       { rewrite Hfr; [reflexivity|]. eapply NoDup_app_disj; eauto. }
       rewrite Hfr', Hl in Hl'. injection Hl' as <-. exact Hc'.
+  Qed.
+
+  (** status.remotePhases: an entry the loop adds or refreshes names a phase object controlled by the ObjectSet,
+      read in this pass, with that object's uid. *)
+  Lemma own_read_app_l s e1 e2 q cur : own_phase_read s e1 q cur -> own_phase_read s (e1 ++ e2) q cur.
+  Proof. intros [H1 H2]. split; [now apply phase_read_app_l|exact H2]. Qed.
+  Lemma own_read_app_r s e1 e2 q cur : own_phase_read s e2 q cur -> own_phase_read s (e1 ++ e2) q cur.
+  Proof. intros [H1 H2]. split; [now apply phase_read_app_r|exact H2]. Qed.
+
+  Lemma rpm_remotes s ow prev phs : forall sw acc rem sw' evs rem' r,
+    reconcile_phases_m force sw s ow prev phs acc rem = (sw', evs, rem', r) ->
+    forall x, In x rem' -> In x rem \/
+      exists q cur, In q phs /\ ph_class q = true /\ own_phase_read s evs q cur /\ x = (pobj_name s q, oi_uid (op_id cur)).
+  Proof.
+    induction phs as [|ph rest IH]; intros sw acc rem sw' evs rem' r H x Hx.
+    - cbn in H. injection H as _ _ <- _. now left.
+    - rewrite rpm_cons in H. destruct (ph_class ph) eqn:Ecl.
+      + destruct (remote_reconcile sw s ph rem) as [[[sw1 e1] rem1] r1] eqn:E1.
+        pose proof (remote_reconcile_own _ _ _ _ _ _ _ _ E1) as Hres.
+        destruct r1 as [|active failed].
+        * destruct Hres as [-> _]. injection H as _ _ <- _. now left.
+        * destruct Hres as (cur & _ & _ & Hread & Hown & Hrem).
+          assert (Hhead : forall evsf, phase_read evsf (pobj_name s ph) cur -> In x rem1 -> In x rem \/
+                    exists q cu, In q (ph :: rest) /\ ph_class q = true /\ own_phase_read s evsf q cu /\ x = (pobj_name s q, oi_uid (op_id cu))).
+          { intros evsf Hr Hi. rewrite Hrem in Hi. destruct (add_remote_in _ _ _ Hi) as [->|Hi']; [right|now left].
+            exists ph, cur. split; [now left|]. split; [exact Ecl|]. split; [split; assumption|reflexivity]. }
+          destruct failed; [injection H as _ <- <- _; now apply Hhead|].
+          destruct (reconcile_phases_m force sw1 s ow prev rest (acc ++ active) rem1) as [[[sw2 e2] rem2] r2] eqn:E2.
+          injection H as _ <- <- _.
+          destruct (IH _ _ _ _ _ _ _ E2 x Hx) as [Hi|(q & cu & Hq & Hc & Ho & He)].
+          -- apply Hhead; [now apply phase_read_app_l|exact Hi].
+          -- right. exists q, cu. split; [now right|]. split; [exact Hc|]. split; [now apply own_read_app_r|exact He].
+      + destruct (reconcile_phase c idw (sw_w sw) ow prev false (ph_objects ph)) as [[w1 e1] r1] eqn:E1.
+        destruct r1 as [e|vs|actual failed]; [injection H as _ _ <- _; now left|injection H as _ _ <- _; now left|].
+        destruct failed as [|f fs]; [|injection H as _ _ <- _; now left].
+        cbv zeta in H.
+        match type of H with context [reconcile_phases_m force ?a s ow prev ?l ?b ?d] =>
+          destruct (reconcile_phases_m force a s ow prev l b d) as [[[sw2 e2] rem2] r2] eqn:E2 end.
+        injection H as _ <- <- _.
+        destruct (IH _ _ _ _ _ _ _ E2 x Hx) as [Hi|(q & cu & Hq & Hc & Ho & He)]; [now left|right].
+        exists q, cu. split; [now right|]. split; [exact Hc|]. split; [now apply own_read_app_r|exact He].
   Qed.
 
   (** ** Teardown of a mixed list *)
@@ -1755,7 +1840,7 @@ Section PassInversion.
   (** Facts about the in-memory copy that stay fixed through finalizer and revision handling. *)
   Definition same_spec (a b : oset) : Prop :=
     os_id a = os_id b /\ os_phases a = os_phases b /\ os_life a = os_life b /\ os_gen a = os_gen b /\
-    os_pkg a = os_pkg b /\ os_conds a = os_conds b /\ os_prev a = os_prev b.
+    os_pkg a = os_pkg b /\ os_conds a = os_conds b /\ os_prev a = os_prev b /\ os_remotes a = os_remotes b.
 
   Lemma patch_finalizer_same sw m fin sw' m' :
     find_set (sw_sets sw) (oi_kind (os_id m)) (oi_ns (os_id m)) (oi_name (os_id m)) = Some m ->
@@ -1771,7 +1856,7 @@ Section PassInversion.
     update_status sw m1 = (sw', m', ok) -> same_spec m' m.
   Proof.
     intros Hf m1 Hs Hrv. unfold update_status.
-    destruct Hs as (Hid & Hph & Hl & Hg & Hp & Hc & Hpr). rewrite Hid, Hf.
+    destruct Hs as (Hid & Hph & Hl & Hg & Hp & Hc & Hpr & Hrm). rewrite Hid, Hf.
     destruct (negb (os_rv m =? os_rv m1)); [intros H; injection H as _ <- _; repeat split; assumption|].
     destruct (status_eqb m m1); intros H; injection H as _ <- _; repeat split; try assumption; reflexivity.
   Qed.
@@ -1878,11 +1963,11 @@ Section PassInversion.
     destruct (revision_pass sw0 mem) as [[[sw1 evs1] mem1] rr] eqn:Erev.
     destruct (revision_pass_inv _ _ _ _ _ _ Hf Erev) as (Hs1 & Hst1 & Hph1 & Hns1 & Hev1).
     assert (Hs10 : same_spec mem1 mem0).
-    { destruct Hs1 as (?&?&?&?&?&?&?), Hs0 as (?&?&?&?&?&?&?). repeat split; congruence. }
+    { destruct Hs1 as (?&?&?&?&?&?&?&?), Hs0 as (?&?&?&?&?&?&?&?). repeat split; congruence. }
     assert (Hev1' : Forall (status_keeps mem0) evs1).
     { eapply Forall_impl; [|exact Hev1]. intros e. apply status_keeps_same; destruct Hs0 as (?&?&?&?&?&Hc&?); now rewrite Hc. }
     assert (Hpre : Forall (status_keeps mem0) (evs0 ++ evs1)) by (apply Forall_app; auto).
-    assert (Hcond1 : os_conds mem1 = os_conds mem0) by (destruct Hs10 as (?&?&?&?&?&?&?); assumption).
+    assert (Hcond1 : os_conds mem1 = os_conds mem0) by (destruct Hs10 as (?&?&?&?&?&?&?&?); assumption).
     assert (Hfail : forall (mx : oset) sw2 evsx rs swf evsf rf, os_conds mx = os_conds mem1 -> os_gen mx = os_gen mem1 ->
               (let m' := set_conds mx (set_cond (os_conds mx) (mk_cond mx CAvailable SFalse rs)) in
                let '(sw'', _, ok) := update_status sw2 m' in
@@ -2197,8 +2282,9 @@ Section SetLevel.
       completed (every object of a local phase present and passing the probe; for every delegated phase a phase
       object read in this pass that is Available for its current generation), with a controllerOf list in which
       every entry was seen controlled by the ObjectSet or is reported in the status of a delegated phase's
-      phase object as read in this pass, and which is complete for the local phases; and the request names no
-      failing phase. *)
+      phase object as read in this pass; every phase object relied upon is controlled by this ObjectSet, and
+      every status.remotePhases entry is either the stored one or names such a phase object with its uid; the
+      list is complete for the local phases; and the request names no failing phase. *)
   Theorem C06_available_true_justified sw k ns n mem0 sw' evs r rev conds ctrlof rem fph ok cd :
     find_set (sw_sets sw) k ns n = Some mem0 -> is_active mem0 -> desired_keys_nodup mem0 ->
     objectset_pass force sw k ns n = (sw', evs, r) ->
@@ -2207,8 +2293,10 @@ Section SetLevel.
     find_cond (os_conds mem0) CAvailable <> Some cd ->
     cd_gen cd = os_gen mem0 /\ fph = None /\
     (forall q, In q (local_phases mem0) -> phase_ok (sw_w sw') (as_owner mem0) q) /\
-    (forall q, In q (delegated_phases mem0) -> exists cur, phase_read evs (pobj_name mem0 q) cur /\ avail_current cur) /\
+    (forall q, In q (delegated_phases mem0) -> exists cur, own_phase_read mem0 evs q cur /\ avail_current cur) /\
     (forall key, In key ctrlof -> seen_controlled (sw_w sw') (as_owner mem0) key \/ reported_by_phase mem0 (os_phases mem0) evs key) /\
+    (forall x, In x rem -> In x (os_remotes mem0) \/
+       exists q cur, In q (os_phases mem0) /\ ph_class q = true /\ own_phase_read mem0 evs q cur /\ x = (pobj_name mem0 q, oi_uid (op_id cur))) /\
     (forall key, In key (flat_map (phase_keys (as_owner mem0)) (local_phases mem0)) ->
                  seen_controlled (sw_w sw') (as_owner mem0) key -> In key ctrlof).
   Proof.
@@ -2255,18 +2343,24 @@ Section SetLevel.
       { intros n0 cur Hr. rewrite Hev. unfold phase_read in *.
         destruct Hr as [Hr|(p & Hr)]; [left|right; exists p]; apply in_or_app; right; apply in_or_app; now left. }
       assert (Hname : forall q, pobj_name mem1 q = pobj_name mem0 q) by (intros q; unfold pobj_name; now rewrite Hsid).
-      split; [cbn in Hgen; congruence|]. split; [reflexivity|]. split; [|split; [|split]].
+      assert (Hown : forall q cur, own_phase_read mem1 pevs q cur -> own_phase_read mem0 evs q cur).
+      { intros q cur [Hr Ho]. split; [rewrite <- Hname; now apply Hsub|now rewrite <- Hsid]. }
+      split; [cbn in Hgen; congruence|]. split; [reflexivity|]. split; [|split; [|split; [|split]]].
       + intros q Hq. apply filter_In in Hq. destruct Hq as [Hq Hlq]. unfold is_local in Hlq. apply negb_true_iff in Hlq. rewrite <- Hphs in Hq.
         pose proof (rpm_all_ok_local force _ _ _ _ _ _ _ _ _ _ _ Hrp Hnd1 q Hq Hlq) as Hd.
         intros p Hp. destruct (Hd p Hp) as (o & Ho & Hpr0). exists o. rewrite <- Hk. unfold obj_ok. rewrite Hw2. auto.
       + intros q Hq. apply filter_In in Hq. destruct Hq as [Hq Hcq]. rewrite <- Hphs in Hq.
-        destruct (rpm_all_ok_read force _ _ _ _ _ _ _ _ _ _ _ Hrp q Hq Hcq) as (cur & Hread & Ha).
-        exists cur. split; [|exact Ha]. rewrite <- Hname. now apply Hsub.
+        destruct (rpm_all_ok_read force _ _ _ _ _ _ _ _ _ _ _ Hrp q Hq Hcq) as (cur & Hread & Ha & Hc).
+        exists cur. split; [|exact Ha]. apply Hown. split; assumption.
       + intros key Hkey. rewrite Hco in Hkey.
         destruct (rpm_ctrlof_sound force _ _ _ _ _ _ _ _ _ _ _ _ Hrp Hnd1) as (new & -> & Hnew0). cbn in Hkey.
         rewrite Forall_forall in Hnew0. destruct (Hnew0 _ Hkey) as [[_ Hsn]|Hrep]; [left; now apply Hsc|right].
         destruct Hrep as (q & cur & Hq & Hcq & Hpo & Hink). exists q, cur. rewrite <- Hphs. split; [exact Hq|]. split; [exact Hcq|]. split; [|exact Hink].
-        rewrite <- Hname. now apply Hsub.
+        now apply Hown.
+      + intros x Hx. subst rem. rewrite Efs in Hx. change (os_remotes (final_status (sw_phases sw2) mem2 co None)) with rem0 in Hx.
+        destruct (rpm_remotes force _ _ _ _ _ _ _ _ _ _ _ Hrp x Hx) as [Hi|(q & cur & Hq & Hcq & Ho & He)].
+        * left. destruct Hs as (_ & _ & _ & _ & _ & _ & _ & Hrm). now rewrite <- Hrm.
+        * right. exists q, cur. rewrite <- Hphs. split; [exact Hq|]. split; [exact Hcq|]. split; [now apply Hown|]. now rewrite <- Hname.
       + intros key Hkey Hsn. rewrite Hco.
         eapply (rpm_ctrlof_complete force _ _ _ _ _ _ _ _ _ _ _ Hrp Hnd1).
         * unfold local_keys. fold (local_phases mem1). rewrite Hl. erewrite flat_map_ext; [exact Hkey|]. intros ph. unfold phase_keys. apply map_ext. exact Hk.
@@ -2859,8 +2953,10 @@ Section DupFree.
     find_cond (os_conds mem0) CAvailable <> Some cd ->
     cd_gen cd = os_gen mem0 /\ fph = None /\
     (forall q, In q (local_phases mem0) -> phase_ok (sw_w sw') (as_owner mem0) q) /\
-    (forall q, In q (delegated_phases mem0) -> exists cur, phase_read evs (pobj_name mem0 q) cur /\ avail_current cur) /\
+    (forall q, In q (delegated_phases mem0) -> exists cur, own_phase_read mem0 evs q cur /\ avail_current cur) /\
     (forall key, In key ctrlof -> seen_controlled (sw_w sw') (as_owner mem0) key \/ reported_by_phase mem0 (os_phases mem0) evs key) /\
+    (forall x, In x rem -> In x (os_remotes mem0) \/
+       exists q cur, In q (os_phases mem0) /\ ph_class q = true /\ own_phase_read mem0 evs q cur /\ x = (pobj_name mem0 q, oi_uid (op_id cur))) /\
     (forall key, In key (flat_map (phase_keys (as_owner mem0)) (local_phases mem0)) ->
                  seen_controlled (sw_w sw') (as_owner mem0) key -> In key ctrlof).
   Proof.
